@@ -326,7 +326,9 @@ func (r *floatIncAggReducer) Aggregate(p *ReducerEndpoint, param *ReducerParams)
 	r.prevStep = rangeEnd
 	if param.lastRec {
 		defer r.reset()
-		if param.step == 0 {
+		// without a window in this record rangeEnd is not a step of the query: nothing to populate
+		// (the same guard as in floatSliceReducer and floatRateReducer).
+		if param.step == 0 || len(param.intervalIndex) == 0 {
 			return
 		}
 		nextStep := rangeEnd + param.step
